@@ -265,6 +265,62 @@ fn run(ctx: &mut Ctx) {
         banks.push(event::trg_bank(3));
         exercise(ctx, u32::MAX, &banks, "wire waveform of up to 65 533 samples");
     });
+    // ---- every waveform length from the ADC minimum (64) to well past the delay, for a block of adjacent wires and for
+    // the pads in front of them (a few samples after the delay: shorter than an offset + look-ahead window)
+    ctx.cases("length-sweep", 90, |ctx, k, rng| {
+        let l = 64 + k as usize;
+        let col = rng.usize(32);
+        let w0 = (0..256).find(|x| crate::evgen::wire_to_column(*x) == col).unwrap();
+        for variant in 0..3 {
+            let mut banks: Banks = Vec::new();
+            for d in 0..3 {
+                let wl = if variant == 2 && d == 1 { 300 } else { l };
+                banks.push(event::wire_bank(&inv, (w0 + d) % 256, (0..wl).map(|j| 3000 - if j > 100 { 40 + (j % 7) as i16 } else { 0 } + (rng.gauss() * 2.0) as i16).collect()));
+            }
+            let prs = if variant == 1 { l.min(511) } else { (l + 4).min(511) };
+            let mut pm = BTreeMap::new();
+            for r in 0..3 {
+                pm.insert((col, 200 + r), (0..prs).map(|j| 1725 - if j > 100 { 60 + (j % 5) as i16 } else { 0 } + (rng.gauss() * 2.0) as i16).collect::<Vec<i16>>());
+            }
+            banks.extend(event::pad_banks(&inv, &pm, 1400));
+            banks.push(event::trg_bank(l as u32));
+            exercise(ctx, u32::MAX, &banks, "waveforms a few samples longer than the delay");
+        }
+    });
+    // ---- one wire firing in 30 consecutive time bins over the same three pad rows: ~20 avalanches at nearly one place,
+    // one cluster, one fitted track about a centimetre long (no candidate for the primary vertex)
+    ctx.cases("stub-track", 32, |ctx, col, rng| {
+        let col = col as usize;
+        let w = (0..256).find(|x| crate::evgen::wire_to_column(*x) == col).unwrap() + rng.usize(8);
+        let row = 3 + rng.usize(570);
+        let k0 = 120 + rng.usize(60);
+        let span = 20 + rng.usize(25);
+        let mut ws = vec![3000.0f64; 500];
+        let mut ps = vec![vec![1725.0f64; 500]; 3];
+        for k in k0..k0 + span {
+            for (j, r) in m.wr.iter().enumerate() {
+                if k + j < 500 {
+                    ws[k + j] += 150.0 * r;
+                }
+            }
+            for (q, wgt) in [0.5, 1.0, 0.5].iter().enumerate() {
+                for (j, r) in m.pr.iter().enumerate() {
+                    if k + j < 500 {
+                        ps[q][k + j] += 700.0 * wgt * r;
+                    }
+                }
+            }
+        }
+        let cl = |v: &Vec<f64>| -> Vec<i16> { v.iter().map(|x| x.round().clamp(-32768.0, 32767.0) as i16).collect() };
+        let mut pm = BTreeMap::new();
+        for q in 0..3 {
+            pm.insert((col, row - 1 + q), cl(&ps[q]));
+        }
+        let mut banks = vec![event::wire_bank(&inv, w % 256, cl(&ws))];
+        banks.extend(event::pad_banks(&inv, &pm, 1400));
+        banks.push(event::trg_bank(9));
+        exercise(ctx, u32::MAX, &banks, "one short track only");
+    });
     ctx.cases("foreign-packet", 32, |ctx, col, rng| {
         let mut pm = BTreeMap::new();
         pm.insert((col as usize, rng.usize(576)), (0..300).map(|_| 1725 + (rng.gauss() * 3.0) as i16).collect::<Vec<i16>>());
